@@ -102,7 +102,13 @@ fn history(ctx: &Ctx, rep: &mut Report, case_seed: u64, variant: u64, always_flu
 	let mut rng = Rng::new(case_seed);
 	let dir = Scratch::new("c5");
 	let mut cfg = DbCfg::new(vec![
-		col(false, true, false, false, CompressionType::NoCompression),
+		// (the padding of the values is periodic, so the 5000 and 36000 byte versions compress:
+		// size-only reads of a compressed hash column must still report the value's own length)
+		col(false, true, false, false, match (variant / 4) % 3 {
+			0 => CompressionType::NoCompression,
+			1 => CompressionType::Lz4,
+			_ => CompressionType::Snappy,
+		}),
 		col(true, false, false, false, if variant % 4 < 2 { CompressionType::NoCompression } else { CompressionType::Lz4 }),
 	]);
 	cfg.salt = Some([0u8; 32]);
